@@ -1162,3 +1162,181 @@ Section Adjoint.
     - now apply blockcol_row_adjoint.
   Qed.
 End Adjoint.
+
+(* ---------- the matrix of `acts_as` is the one read off basis vectors ---------- *)
+Section Columns.
+  Variable K : Type.
+  Variables (k0 k1 : K) (kadd kmul ksub : K -> K -> K) (kopp : K -> K).
+  Hypothesis Kth : ring_theory k0 k1 kadd kmul ksub kopp (@eq K).
+  Add Ring KringC : Kth.
+  Notation value := (value K).
+  Notation dotk := (dotk k0 kadd kmul).
+  Notation mv := (mv k0 kadd kmul).
+  Notation acts_as := (acts_as k0 kadd kmul).
+  Notation hasS := (@hasS K).
+  Notation vflat := (@vflat K).
+  Notation unflat := (@unflat K).
+  Notation basisk := (basisk k0 k1).
+
+  Lemma firstn_add X (v : list X) a : forall b, firstn (a + b) v = firstn a v ++ firstn b (skipn a v).
+  Proof. revert v. induction a as [|a IH]; intros [|x v] b; cbn; try reflexivity; [now rewrite firstn_nil|]. now rewrite IH. Qed.
+  Lemma skipn_add X (v : list X) a : forall b, skipn (a + b) v = skipn b (skipn a v).
+  Proof. revert v. induction a as [|a IH]; intros [|x v] b; cbn; try reflexivity; [now rewrite skipn_nil|]. apply IH. Qed.
+
+  Lemma unflat_ok : forall (s : struct) (v : list K), struct_size s <= List.length v ->
+    hasS (fst (unflat s v)) s = true /\ vflat (fst (unflat s v)) = firstn (struct_size s) v /\
+    snd (unflat s v) = skipn (struct_size s) v.
+  Proof.
+    induction s as [sd|k ss IH] using pt_ind'; intros v Hv.
+    - assert (Hs : struct_size (Leaf sd) = leaf_size sd) by (unfold struct_size; cbn; lia).
+      rewrite Hs in *. cbn [BlockMat.unflat fst snd BlockMat.hasS]. rewrite (vflat_leaf K), firstn_length_le by exact Hv.
+      rewrite Nat.eqb_refl. auto.
+    - rewrite (struct_size_node k ss) in *. cbn [BlockMat.unflat].
+      assert (Hl : forall v, sumn (map struct_size ss) <= List.length v ->
+        let r := (fix go (ss : list struct) (v : list K) : list value * list K :=
+             match ss with
+             | [] => ([], v)
+             | s :: ss' => let '(c, r1) := unflat s v in let '(cs, r2) := go ss' r1 in (c :: cs, r2)
+             end) ss v in
+        (fix go (l : list value) (l' : list struct) : bool :=
+           match l, l' with
+           | [], [] => true
+           | a :: r, b :: r' => hasS a b && go r r'
+           | _, _ => false
+           end) (fst r) ss = true /\
+        List.concat (map vflat (fst r)) = firstn (sumn (map struct_size ss)) v /\
+        snd r = skipn (sumn (map struct_size ss)) v).
+      { clear v Hv. induction IH as [|s ss' Hs _ IHl]; intros v Hv.
+        - cbn. auto.
+        - cbn [map sumn fold_right] in Hv |- *. fold (sumn (map struct_size ss')) in *.
+          destruct (Hs v ltac:(lia)) as (H1 & H2 & H3).
+          destruct (unflat s v) as [c r1]. cbn [fst snd] in *. subst r1.
+          destruct (IHl (skipn (struct_size s) v) ltac:(rewrite skipn_length; lia)) as (H4 & H5 & H6).
+          match goal with |- context [let '(cs, r2) := ?G in _] => destruct G as [cs r2] end.
+          cbn [fst snd] in *. rewrite H1, H4. cbn [map List.concat]. rewrite H2, H5, H6, firstn_add, skipn_add. auto. }
+      specialize (Hl v Hv). cbn zeta in Hl.
+      match goal with |- context [let '(cs, r) := ?G in _] => destruct G as [cs r] end.
+      cbn [fst snd] in *. destruct Hl as (H1 & H2 & H3). cbn [BlockMat.hasS]. rewrite ckind_eqb_refl, H1.
+      rewrite (vflat_node K). auto.
+  Qed.
+
+  Lemma dotk_basis_gen (row : list K) : forall a j,
+    dotk row (map (fun i => if Nat.eqb i j then k1 else k0) (seq a (List.length row))) =
+    if (a <=? j) && (j <? a + List.length row) then nth (j - a) row k0 else k0.
+  Proof.
+    induction row as [|r0 row IH]; intros a j.
+    - destruct ((a <=? j) && (j <? a + List.length (@nil K))); [destruct (j - a)|]; reflexivity.
+    - cbn [List.length seq map]. rewrite (dotk_cons K k0 kadd kmul), IH.
+      destruct (Nat.eqb a j) eqn:Eaj.
+      + apply Nat.eqb_eq in Eaj; subst j.
+        replace (S a <=? a) with false by (symmetry; apply Nat.leb_gt; lia). cbn [andb].
+        replace (a <=? a) with true by (symmetry; apply Nat.leb_le; lia).
+        replace (a <? a + S (List.length row)) with true by (symmetry; apply Nat.ltb_lt; lia).
+        cbn [andb]. rewrite Nat.sub_diag. cbn. ring.
+      + apply Nat.eqb_neq in Eaj.
+        destruct (a <=? j) eqn:E1; cbn [andb].
+        * apply Nat.leb_le in E1. replace (S a <=? j) with true by (symmetry; apply Nat.leb_le; lia). cbn [andb].
+          replace (j <? a + S (List.length row)) with (j <? S a + List.length row)
+            by (f_equal; lia).
+          destruct (j <? S a + List.length row); [|ring].
+          replace (j - a) with (S (j - S a)) by lia. cbn [nth]. ring.
+        * apply Nat.leb_gt in E1. replace (S a <=? j) with false by (symmetry; apply Nat.leb_gt; lia). cbn [andb]. ring.
+  Qed.
+  Lemma dotk_basis (row : list K) n j : List.length row = n -> j < n -> dotk row (basisk n j) = nth j row k0.
+  Proof.
+    intros <- Hj. unfold BlockMat.basisk. rewrite dotk_basis_gen. cbn [Nat.leb andb Nat.add].
+    replace (j <? List.length row) with true by (symmetry; apply Nat.ltb_lt; exact Hj). now rewrite Nat.sub_0_r.
+  Qed.
+  Lemma basisk_length n j : List.length (basisk n j) = n.
+  Proof. unfold BlockMat.basisk. now rewrite map_length, seq_length. Qed.
+
+  Lemma omapl_all X Y (g : X -> option Y) (h : X -> Y) l :
+    (forall j, In j l -> g j = Some (h j)) -> omapl g l = Some (map h l).
+  Proof.
+    induction l as [|a r IH]; intros H; [reflexivity|]. cbn. rewrite (H a (or_introl eq_refl)), IH; [reflexivity|].
+    intros j Hj. apply H. now right.
+  Qed.
+
+  (* the columns AbstractLinearOperator.as_matrix reads off the basis vectors are the columns of M *)
+  Theorem acts_as_columns (f : value -> option value) si so (M : matrix K) :
+    acts_as f si so M -> columns k0 k1 f si = Some (columns_of k0 (struct_size si) M).
+  Proof.
+    intros (Hrows & _ & Hact). unfold columns, columns_of. apply omapl_all. intros j Hj.
+    apply in_seq in Hj. set (n := struct_size si) in *.
+    destruct (unflat_ok si (basisk n j)) as (H1 & H2 & _); [rewrite basisk_length; unfold n; lia|].
+    destruct (Hact _ H1) as (y & Hy & _ & Hf). rewrite Hy. cbn [option_map]. f_equal. rewrite Hf, H2.
+    rewrite firstn_all2 by (rewrite basisk_length; unfold n; lia).
+    unfold BlockMat.mv, column_of. apply map_ext_in. intros row Hr. rewrite Forall_forall in Hrows.
+    apply dotk_basis; [apply Hrows; exact Hr|lia].
+  Qed.
+End Columns.
+
+(* ---------- the dense matrices (columns from basis vectors) of the block operators ---------- *)
+Section Dense.
+  Variable K : Type.
+  Variables (k0 k1 : K) (kadd kmul ksub : K -> K -> K) (kopp : K -> K).
+  Hypothesis Kth : ring_theory k0 k1 kadd kmul ksub kopp (@eq K).
+  Notation op := (op K).
+  Variable leafsem : op -> value K -> option (value K).
+  Notation denote := (denote kadd kmul leafsem).
+  Notation acts_as := (acts_as k0 kadd kmul).
+  Notation gmat := (fun e => columns k0 k1 (denote e) (in_struct e)).
+
+  Theorem blockrow_dense i td (l : list op) (Ms : list (matrix K)) so :
+    List.length l = nleaves td -> l <> [] ->
+    Forall2 (fun b M => acts_as (denote b) (in_struct b) so M) l Ms ->
+    gmat (Block i BRow td l) = Some (columns_of k0 (struct_size (in_struct (Block i BRow td l))) (hstack Ms)).
+  Proof.
+    intros H1 H2 H3. eapply (acts_as_columns K k0 k1 kadd kmul ksub kopp Kth).
+    exact (blockrow_matrix K k0 k1 kadd kmul ksub kopp Kth leafsem i td l Ms so H1 H2 H3).
+  Qed.
+  Theorem blockdiag_dense i td (l : list op) (Ms : list (matrix K)) :
+    List.length l = nleaves td ->
+    Forall2 (fun b M => acts_as (denote b) (in_struct b) (out_struct b) M) l Ms ->
+    gmat (Block i BDiag td l) =
+    Some (columns_of k0 (struct_size (in_struct (Block i BDiag td l)))
+            (block_diag k0 (combine Ms (map (fun b => struct_size (in_struct b)) l)))).
+  Proof.
+    intros H1 H2. eapply (acts_as_columns K k0 k1 kadd kmul ksub kopp Kth).
+    exact (blockdiag_matrix K k0 k1 kadd kmul ksub kopp Kth leafsem i td l Ms H1 H2).
+  Qed.
+  Theorem blockcol_dense i td (l : list op) (Ms : list (matrix K)) :
+    List.length l = nleaves td -> l <> [] ->
+    Forall2 (fun b M => acts_as (denote b) (in_struct (Block i BCol td l)) (out_struct b) M) l Ms ->
+    gmat (Block i BCol td l) = Some (columns_of k0 (struct_size (in_struct (Block i BCol td l))) (vstack Ms)).
+  Proof.
+    intros H1 _ H2. eapply (acts_as_columns K k0 k1 kadd kmul ksub kopp Kth).
+    exact (blockcol_matrix K k0 kadd kmul leafsem i td l Ms _ H1 H2).
+  Qed.
+End Dense.
+
+From Coq Require Import Qcanon.
+From Furax Require Import Model.Exec.
+Local Close Scope Q_scope.
+Local Close Scope Qc_scope.
+Local Open Scope nat_scope.
+
+(* ---------- stage 2: the executable leaf semantics satisfies the hypothesis of the matrix forms ---------- *)
+Lemma Qc_ring : ring_theory Exec.k0 Exec.k1 Qcplus Qcmult Qcminus Qcopp (@eq Qc).
+Proof. exact Qcrt. Qed.
+
+(* a leaf operator whose action is a measured matrix of the right dimensions acts as that matrix *)
+Theorem exec_table_leaf_acts_as (tb : table) i c si so p m :
+  let e : xop := Prim i c si so p in
+  (i =? 0)%N = false -> lookup tb (2 * i)%N = Some m ->
+  Forall (fun row => List.length row = struct_size (in_struct e)) m ->
+  List.length m = struct_size (out_struct e) ->
+  acts_as Exec.k0 Qcplus Qcmult (Exec.leafsem tb e) (in_struct e) (out_struct e) m.
+Proof.
+  intros e Hi Hm Hrows Hlen. split; [exact Hrows|]. split; [exact Hlen|]. intros x Hx.
+  unfold Exec.leafsem. fold e.
+  change (has_struct x (in_struct e)) with (hasS x (in_struct e)). rewrite Hx. cbn [negb].
+  unfold e at 1. rewrite Hi, Hm. unfold apply_matrix.
+  change (has_struct x (in_struct e)) with (hasS x (in_struct e)). rewrite Hx.
+  eexists. split; [reflexivity|].
+  assert (Hl : struct_size (out_struct e) <= List.length (matvec m (vflatten x))).
+  { unfold matvec. rewrite map_length. lia. }
+  destruct (unflat_ok K (out_struct e) (matvec m (vflatten x)) Hl) as (H1 & H2 & _).
+  split; [exact H1|]. etransitivity; [exact H2|].
+  rewrite firstn_all2 by (unfold matvec; rewrite map_length; lia). reflexivity.
+Qed.
